@@ -12,6 +12,7 @@
     takes the gradient by finite differences, C19/C08), the grid map chi -> z and the fact
     that getCompactificationDerivatives is its derivative (proved for Grid3Scales by C17,
     validated numerically here), and the Gauss-Lobatto quadrature error (validated). *)
+Set Warnings "-ambiguous-paths".
 From Coq Require Import Reals Lra.
 From Coquelicot Require Import Coquelicot.
 From WG Require Import Lib.NumpySem Lib.WallProfile.
@@ -125,6 +126,89 @@ Proof.
   unfold Rdiv. ring.
 Qed.
 End Integrand2.
+
+(** * The grid re-mapping of EOM._updateGrid (generated, one and two fields) always
+    satisfies the preconditions of Grid3Scales and covers the wall *)
+Section Grid.
+Variable e : ug_env.
+Hypothesis Hs : 0 < smoothing e.
+Hypothesis Hr : 0 < ratioPointsWall e.
+Notation s := (smoothing e).
+Notation r := (ratioPointsWall e).
+
+Lemma tail_facts (L X : R) : 0 < L ->
+  let t := Rmax X (L * (1 / 2 + 21 / 20 * s) / r) in
+  L * (1 / 2 + s) / r < t /\ 0 < 2 * r * t - L * (1 + s).
+Proof.
+  intros HL t.
+  assert (Ht : L * (1 / 2 + 21 / 20 * s) / r <= t) by apply Rmax_r.
+  assert (Hq : L * (1 / 2 + s) / r < L * (1 / 2 + 21 / 20 * s) / r).
+  { apply Rmult_lt_compat_r; [apply Rinv_0_lt_compat; exact Hr|nra]. }
+  split; [lra|].
+  assert (H2 : 2 * r * (L * (1 / 2 + 21 / 20 * s) / r) <= 2 * r * t).
+  { apply Rmult_le_compat_l; [lra|exact Ht]. }
+  replace (2 * r * (L * (1 / 2 + 21 / 20 * s) / r)) with (L * (1 + 21 / 10 * s)) in H2
+    by (field; lra).
+  nra.
+Qed.
+
+Variables w0 o0 w1 o1 v : R.
+Hypothesis Hw0 : 0 < w0.
+Hypothesis Hw1 : 0 < w1.
+
+Lemma updateGrid2_ok :
+  let res := updateGrid2 e w0 o0 w1 o1 v in
+  let tin := fst (fst (fst res)) in let tout := snd (fst (fst res)) in
+  let L := snd (fst res) in let c := snd res in
+  let mid := c + L * ln 2 / 2 in
+  0 < L /\
+  L * (1 / 2 + s) / r < tin /\ L * (1 / 2 + s) / r < tout /\
+  0 < 2 * r * tin - L * (1 + s) /\ 0 < 2 * r * tout - L * (1 + s) /\
+  mid - L <= (-1 - o0) * w0 /\ (1 - o0) * w0 <= mid + L /\
+  mid - L <= (-1 - o1) * w1 /\ (1 - o1) * w1 <= mid + L /\
+  (ug_includeOffEq e = 0 -> tin = tout).
+Proof.
+  unfold updateGrid2. cbv zeta. cbn [fst snd].
+  set (A := Rmax ((1 - o0) * w0) ((1 - o1) * w1)).
+  set (B := Rmin ((-1 - o0) * w0) ((-1 - o1) * w1)).
+  assert (A0 : (1 - o0) * w0 <= A) by apply Rmax_l.
+  assert (A1 : (1 - o1) * w1 <= A) by apply Rmax_r.
+  assert (B0 : B <= (-1 - o0) * w0) by apply Rmin_l.
+  assert (B1 : B <= (-1 - o1) * w1) by apply Rmin_r.
+  assert (HL : 0 < (A - B) / 2) by nra.
+  repeat match goal with
+  | |- context [Rmax ?X ((A - B) / 2 * ?k / r)] =>
+      let H := fresh "T" in
+      pose proof (tail_facts ((A - B) / 2) X HL) as H; cbv zeta in H;
+      let t := fresh "t" in set (t := Rmax X ((A - B) / 2 * k / r)) in *
+  end.
+  repeat split; try lra.
+  intros H0. subst t t0. rewrite H0. rewrite !Rmult_0_r. reflexivity.
+Qed.
+
+Lemma updateGrid1_ok :
+  let res := updateGrid1 e w0 o0 v in
+  let tin := fst (fst (fst res)) in let tout := snd (fst (fst res)) in
+  let L := snd (fst res) in let c := snd res in
+  let mid := c + L * ln 2 / 2 in
+  L = w0 /\ mid = - o0 * w0 /\
+  L * (1 / 2 + s) / r < tin /\ L * (1 / 2 + s) / r < tout /\
+  0 < 2 * r * tin - L * (1 + s) /\ 0 < 2 * r * tout - L * (1 + s) /\
+  (ug_includeOffEq e = 0 -> tin = tout).
+Proof.
+  unfold updateGrid1. cbv zeta. cbn [fst snd].
+  assert (EL : ((1 - o0) * w0 - (-1 - o0) * w0) / 2 = w0) by field.
+  rewrite !EL.
+  repeat match goal with
+  | |- context [Rmax ?X (w0 * ?k / r)] =>
+      let H := fresh "T" in
+      pose proof (tail_facts w0 X Hw0) as H; cbv zeta in H;
+      let t := fresh "t" in set (t := Rmax X (w0 * k / r)) in *
+  end.
+  repeat split; try lra.
+  intros H0. subst t t0. rewrite H0. rewrite !Rmult_0_r. reflexivity.
+Qed.
+End Grid.
 
 (** * Theorems *)
 
@@ -334,6 +418,40 @@ Theorem quadrature_on_the_grid_of_the_profile : quadrature_grid_version = final_
 Proof. vm_compute. reflexivity. Qed.
 Print Assumptions quadrature_on_the_grid_of_the_profile.
 
+(** EOM._updateGrid (two fields, one field): for ALL positive widths, all offsets, every
+    plasma velocity and mean free path, the re-mapped grid has positive wall thickness, tails
+    that satisfy the assertions of Grid3Scales (so aIn, aOut are well defined), its linear
+    region [centre - L, centre + L] (centre before the ln2 shift) contains every field's
+    [-(1+offset) width, (1-offset) width], and the two tails coincide (aIn = aOut) when
+    includeOffEq is off *)
+Theorem grid_remap_resolves_the_wall : forall e w0 o0 w1 o1 v,
+  0 < smoothing e -> 0 < ratioPointsWall e -> 0 < w0 -> 0 < w1 ->
+  let s := smoothing e in let r := ratioPointsWall e in
+  (let res := updateGrid2 e w0 o0 w1 o1 v in
+   let tin := fst (fst (fst res)) in let tout := snd (fst (fst res)) in
+   let L := snd (fst res) in let c := snd res in
+   let mid := c + L * ln 2 / 2 in
+   0 < L /\
+   L * (1 / 2 + s) / r < tin /\ L * (1 / 2 + s) / r < tout /\
+   0 < 2 * r * tin - L * (1 + s) /\ 0 < 2 * r * tout - L * (1 + s) /\
+   mid - L <= (-1 - o0) * w0 /\ (1 - o0) * w0 <= mid + L /\
+   mid - L <= (-1 - o1) * w1 /\ (1 - o1) * w1 <= mid + L /\
+   (ug_includeOffEq e = 0 -> tin = tout)) /\
+  (let res := updateGrid1 e w0 o0 v in
+   let tin := fst (fst (fst res)) in let tout := snd (fst (fst res)) in
+   let L := snd (fst res) in let c := snd res in
+   let mid := c + L * ln 2 / 2 in
+   L = w0 /\ mid = - o0 * w0 /\
+   L * (1 / 2 + s) / r < tin /\ L * (1 / 2 + s) / r < tout /\
+   0 < 2 * r * tin - L * (1 + s) /\ 0 < 2 * r * tout - L * (1 + s) /\
+   (ug_includeOffEq e = 0 -> tin = tout)).
+Proof.
+  intros e w0 o0 w1 o1 v Hs Hr Hw0 Hw1 s r. split.
+  - apply updateGrid2_ok; assumption.
+  - apply updateGrid1_ok; assumption.
+Qed.
+Print Assumptions grid_remap_resolves_the_wall.
+
 (** non-vacuity: the hypotheses on the collaborators are satisfiable (one field, V = x^2,
     identity-like grid map on a stretch) *)
 Example hypotheses_satisfiable :
@@ -344,8 +462,8 @@ Example hypotheses_satisfiable :
   (forall x, is_derive (fun x => x ^ 2) x (2 * x)) /\
   (forall g c, is_derive (xi e g) c (dzdchi e g c) /\ continuous (dzdchi e g) c).
 Proof.
-  cbn. repeat split.
+  cbn. split; [intros; reflexivity|]. split; [intros; reflexivity|].
+  split; [intros; reflexivity|]. split.
   - intro x. auto_derive; [exact I|ring].
-  - auto_derive; [exact I|ring].
-  - apply continuous_const.
+  - intros g c. split; [auto_derive; [exact I|ring]|apply continuous_const].
 Qed.
